@@ -144,7 +144,11 @@ func TestZZReplay(t *testing.T) {
 	// counterexample is declared not reproducible.
 	var out string
 	for _, cpu := range []string{"1", "", "1"} {
-		args := []string{"test", "-v", "-vet=off", "-count=1", "-overlay", ovFile, "-run", "^TestZZReplay$", "-timeout", "90s"}
+		tmo := "90s"
+		if rf.Expect.Kind == "hang" {
+			tmo = "8s" // a spinning loop may allocate as it goes: keep the demonstration short
+		}
+		args := []string{"test", "-v", "-vet=off", "-count=1", "-overlay", ovFile, "-run", "^TestZZReplay$", "-timeout", tmo}
 		if cpu != "" {
 			args = append(args, "-cpu", cpu)
 		}
@@ -197,6 +201,8 @@ func replayMatches(rf ReplayFile, out string) bool {
 		return strings.Contains(out, "level=fatal") || strings.Contains(out, "fatal error:") || strings.Contains(out, "exit status 1")
 	case "deadlock":
 		return strings.Contains(out, "test timed out") || strings.Contains(out, "all goroutines are asleep")
+	case "hang":
+		return strings.Contains(out, "test timed out") || strings.Contains(out, "out of memory")
 	}
 	return false
 }
